@@ -4,6 +4,7 @@ from hypothesis import strategies as st
 from mingus.core import intervals, keys
 from mingus.core.mt_exceptions import NoteFormatError, RangeError
 
+from vlib import fuzz
 from vlib.core import FAILED, Sub, failed
 from vlib.ref import theory as T
 
@@ -289,7 +290,25 @@ def sub_diatonic(ctx, shard, n):
     ctx.enumerate("diatonic", check_diatonic, _shard(cases, shard, n))
 
 
+
+# ---- coverage-guided fuzz target (atheris): bytes -> text biased towards the relevant alphabet ------------------
+_FUZZ_ALPHABET = list('ABCDEFGabcdefg#b#b Hh-m')
+
+
+def _fuzz_text(fdp):
+    raw = fdp.ConsumeBytes(fdp.ConsumeIntInRange(1, 6))
+    s = "".join(_FUZZ_ALPHABET[b] if b < len(_FUZZ_ALPHABET) else chr(b if b < 128 else 0x100 + b) for b in raw)
+    return s or None
+
+
+FUZZ = {"keys": (_fuzz_text, "candidate")}
+
+def sub_fuzz(ctx, shard, n):
+    fuzz.run(ctx, __name__, "keys", 15000 if ctx.quick else 200000, max_len=8)
+
+
 SUBS = [
+    Sub("fuzz", sub_fuzz, quick=1, thorough=4),
     Sub("order", sub_order),
     Sub("keys", sub_keys),
     Sub("signums", sub_signums),
